@@ -162,9 +162,16 @@ for _u in UNITS:
     elif _u['name'] == 'get_value_lk': _u['replay'] = RP_DUP('get_value')
     elif _u['name'] in ('awt_bool', 'awt_not', 'proto_blocking__all_values'): _u['replay'] = RP_BLOCK
     elif _u['name'] == 'subscribe_lk_copy': _u['replay'] = RP_COPY
+# ---- constructors of the queue: induction base of the invariant every other unit assumes (container default constructors: lib/model_pubsub_ctor.c)
+CTOR_BOUNDARY = [r'^std::vector<cocls::publisher<int>::queue::subreg_t.*::vector\(\)$', r'^std::deque<int, std::allocator<int> >::deque\(\)$', r'^std::vector<cocls::awaiter\*.*::vector\(\)$']
+def ctor(name, sig):
+    return unit(name, name, sig, hooks=False, lib=LIBS + ['model_pubsub_ctor.c'], spec=['C16/ps_spec.h', 'C16/ctor_spec.h'], extra_boundary=CTOR_BOUNDARY, timeout=120)
+UNITS += [ctor('q_ctor', QS + 'queue()'), ctor('q_ctor_mm', QS + 'queue(unsigned long, unsigned long)')]
 META = dict(
     level='proof',
-    level_text=('Every function of publisher<int>::queue that runs under the queue mutex (subscribe_lk x3, leave_lk, advance_lk, advance_suspend_lk, get_value_lk, push_lk incl. both '
+    level_text=('INDUCTION BASE: both constructors of publisher<int>::queue (units q_ctor, q_ctor_mm; container default constructors = assumed "empty" contracts of lib/model_pubsub_ctor.c) establish the queue invariant Q_INV and the entry state STATE_OK that every other unit requires - '
+        'stream position 1, empty window numbered from 0, no registration slot, empty free list, empty wake-up buffer, not closed, exactly the configured min/max (default: unlimited / 1; queue(max,min) under its documented precondition min >= 1, max >= min). '
+        'Every function of publisher<int>::queue that runs under the queue mutex (subscribe_lk x3, leave_lk, advance_lk, advance_suspend_lk, get_value_lk, push_lk incl. both '
         'loops, kick_lk) is verified against a contract whose clauses are taken from the property statement, over abstract models of the three std containers and an abstract stream '
         '(ghost-index idiom: ONE arbitrary stream position gh_P with value gh_sval, ONE arbitrary registration slot, ONE arbitrary awaiter - so every clause holds for all positions / '
         'subscribers / awaiters), for every stream position < 2^40, every window length, symbolic min/max (incl. unlimited), every number of registrations. Queue invariant (DESIGN C16) '
@@ -199,6 +206,7 @@ META = dict(
         'forwarder units with logging abstract callees; thread-modular rely step at lock acquisitions (CV_ON_LOCK hook), invariant obligations at lock releases (CV_ON_UNLOCK); history lemma with '
         'contract replacement + loop invariant; bounded unwinding stand-in for the free list'),
     trusted_base=[
+        'lib/model_pubsub_ctor.c: default constructors of the three containers = empty (deque numbering starts at 0: the first element pushed gets id 1 = stream position 1)',
         'lib/model_pubsub.c: std::deque<int> as a window over absolute ids (push_front, operator[], size, resize that never grows, std::copy to a front_inserter); content tracked at one arbitrary id',
         'lib/model_pubsub_dpos.c: operator[] of the deque model notes the absolute id (= stream position) of the element it hands out (gh_dq_ref_id); the value a subscriber receives is the one read through that reference',
         'lib/model_pubsub.c: std::vector<subreg_t> with one arbitrary tracked slot; a reference to any OTHER slot yields arbitrary content constrained by instances of the unit invariant for "every other slot" '
